@@ -262,7 +262,7 @@ func (r *runner) countStatus(s string) int {
 }
 
 func (r *runner) worker() {
-	sol := NewSolver("z3", r.timeoutMs)
+	sol := NewSolver(envOr("QSYM_SOLVER", "z3"), r.timeoutMs)
 	defer sol.Close()
 	ex := NewExec(r.P.prog, sol)
 	var local []task
